@@ -155,13 +155,14 @@ func (m *txObjectMap) PendingCostOf(payer thor.Address) *big.Int {
 }
 
 // promote marks a pooled tx executable and adds its cost to the payer's pending total,
-// but only if the tx is still present (promote-if-present). Returns false if the tx was
-// already removed. Idempotent for an already-executable tx. Requires the pricing to have
-// been published (via setPricing) beforehand.
+// but only if this very object is still present (promote-if-present). Returns false if the
+// tx was already removed, or removed and added again as another object in the meantime
+// (that object accounts for itself). Idempotent for an already-executable tx. Requires the
+// pricing to have been published (via setPricing) beforehand.
 func (m *txObjectMap) promote(txObj *TxObject) bool {
 	m.lock.Lock()
 	defer m.lock.Unlock()
-	if _, ok := m.mapByHash[txObj.Hash()]; !ok {
+	if pooled, ok := m.mapByHash[txObj.Hash()]; !ok || pooled != txObj {
 		return false
 	}
 	if txObj.executable {
